@@ -1,8 +1,9 @@
 (* Proofs/C18Diff.v (C18) — facts about Model/DiffHumans.v, the end-to-end model of DateTime.diff(other) / diff_for_humans(other):
    the three listed findings as machine-checked witnesses (evaluated on the model that the correspondence run compares with both
    backends), the regions on which direction and operands are right, and totality of the phrase. *)
-From Coq Require Import ZArith List Bool String Lia.
+From Coq Require Import ZArith List Bool String Lia ZifyBool.
 From PV Require Import Lib.PyBase Spec.Cal Model.PdBase Gen.PreciseDiff Model.RustPreciseDiff Model.PdInterval.
+From PV Require Import Proofs.CalFacts Proofs.C06Facts Proofs.C06Spec Proofs.C06Rebuild Proofs.C06Thms.
 From PV Require Import Model.LocaleBase Gen.Locales Model.DiffFormat Model.DiffHumans Proofs.C18Facts.
 Import ListNotations.
 Open Scope Z_scope.
@@ -98,3 +99,141 @@ Proof. unfold diff_comps, pd_backend. cbv zeta. cbn [bind]. eexists. reflexivity
 Lemma diff_for_humans_rs_total_lemma L a b oa ob absolute : In L all_locales ->
   exists s, diff_for_humans L true a b oa ob absolute = Ok s /\ s <> [] /\ brace_free s.
 Proof. intro HL. destruct (diff_comps_rs_total a b oa ob) as [ci H]. eapply diff_for_humans_total_lemma; eauto. Qed.
+
+(* ------------------------------------------------------------------------------------------------------------------------------
+   magnitude, proved: two datetimes with zero offset (UTC, or both naive) less than a day apart.  From the characterisation of the
+   translated precise_diff (C06: py_pd_spec) the difference has no years, months or days and its hours/minutes/seconds ARE the elapsed
+   time; hence (within_one_unit_fixed) the count of the phrase is within one unit of the TRUE elapsed time.  The same for the compiled
+   helper through pd_rust_eq_python (C06). *)
+(* the day after a valid date *)
+Lemma next_day y m d : valid_dateb y m d = true ->
+  exists y' m' d', valid_dateb y' m' d' = true /\ ymd2ord y' m' d' = ymd2ord y m d + 1 /\
+    ((y' = y /\ m' = m /\ d' = d + 1) \/
+     (d = dim y m /\ d' = 1 /\ prev_y y' m' = y /\ prev_m m' = m /\ 12 * (y' - y) + (m' - m) = 1)).
+Proof.
+  intro V. pose proof V as V'. apply valid_dateb_true in V'. destruct V' as [Hm Hd].
+  destruct (Z_lt_ge_dec d (dim y m)) as [Hlt | Hge].
+  - exists y, m, (d + 1). split; [apply valid_dateb_true; lia|]. split; [unfold ymd2ord; lia|]. left. lia.
+  - assert (d = dim y m) by lia.
+    set (m' := if m =? 12 then 1 else m + 1). set (y' := if m =? 12 then y + 1 else y).
+    assert (Hp : prev_y y' m' = y /\ prev_m m' = m).
+    { unfold prev_y, prev_m, y', m'. destruct (m =? 12) eqn:E.
+      - change (1 =? 1) with true. cbv iota. lia.
+      - destruct (m + 1 =? 1) eqn:E2; lia. }
+    destruct Hp as [Hpy Hpm].
+    assert (Hm' : 1 <= m' <= 12) by (unfold m'; destruct (m =? 12) eqn:E; lia).
+    exists y', m', 1. pose proof (dim_bounds y' m').
+    split; [apply valid_dateb_true; lia|].
+    split.
+    + rewrite (ymd2ord_prev y' m' 1 Hm'). rewrite Hpy, Hpm. unfold ymd2ord. lia.
+    + right. repeat split; try assumption. unfold y', m'. destruct (m =? 12) eqn:E; lia.
+Qed.
+
+Lemma subday_spec a b r : wf_op a -> wf_op b -> 0 < p_wall b - p_wall a < us_per_day -> pd_spec a b r ->
+  pd_years r = 0 /\ pd_months r = 0 /\ pd_days r = 0 /\
+  ((pd_hours r * 60 + pd_minutes r) * 60 + pd_seconds r) * 1000000 + pd_microseconds r = p_wall b - p_wall a.
+Proof.
+  intros (Va & Ta & _) (Vb & Tb & _) He S.
+  pose proof (tod_range a Ta) as Ra. pose proof (tod_range b Tb) as Rb.
+  rewrite (p_wall_split a), (p_wall_split b) in *.
+  unfold pd_spec in S. cbv zeta in S. destruct S as (_ & _ & _ & _ & Htime & HM & Hd).
+  pose proof (dim_bounds (p_year b) (p_month b)) as B1.
+  assert (Hord : p_date_ord b = p_date_ord a \/ p_date_ord b = p_date_ord a + 1) by (unfold us_per_day in *; nia).
+  destruct Hord as [Heq | Hnext].
+  - (* same date *)
+    pose proof Heq as Heq'. unfold p_date_ord in Heq'. pose proof (ymd2ord_inj _ _ _ _ _ _ Vb Va Heq') as E. inversion E as [[Ey Em Ed]].
+    assert (Hlt : tod a < tod b) by (rewrite Heq in He; lia).
+    destruct (tod b <? tod a) eqn:B; [lia|].
+    rewrite Ey, Em, Ed in *. rewrite Heq. unfold us_per_day in *.
+    destruct Hd as [(H1 & H2 & H3) | [(H1 & _) | (H1 & _)]]; [| lia | lia].
+    repeat split; lia.
+  - (* the next date *)
+    assert (Hlt : tod b < tod a) by (rewrite Hnext in He; unfold us_per_day in *; lia).
+    destruct (tod b <? tod a) eqn:B; [|lia].
+    destruct (next_day _ _ _ Va) as (y' & m' & d' & V' & Ho & Hc).
+    unfold p_date_ord in Hnext. rewrite <- Ho in Hnext.
+    pose proof (ymd2ord_inj _ _ _ _ _ _ Vb V' Hnext) as E. inversion E as [[Ey Em Ed]].
+    unfold p_date_ord. rewrite Ey, Em, Ed in *. rewrite Ho.
+    destruct Hc as [(-> & -> & ->) | (Hda & -> & Hpy & Hpm & Hdm)].
+    + unfold us_per_day in *. destruct Hd as [(H1 & H2 & H3) | [(H1 & _) | (H1 & _)]]; [| lia | lia]. repeat split; lia.
+    + rewrite Hpy, Hpm in *. unfold us_per_day in *. pose proof (dim_bounds (p_year a) (p_month a)) as B2.
+      destruct Hd as [(H1 & _) | [(H1 & H2 & _) | (H1 & H2 & H3 & H4)]]; [lia | lia |]. repeat split; lia.
+Qed.
+
+Ltac Zify.zify_post_hook ::= Z.to_euclidean_division_equations.
+
+Lemma refolded_zero d : p_offset d = 0 -> refolded d 0 = d.
+Proof. intro H. destruct d; cbn in *. subst. reflexivity. Qed.
+
+Lemma subday_utc a b : dt_pair a b -> 0 < p_wall b - p_wall a < us_per_day ->
+  exists c, diff_comps false a b 0 0 = Ok (c, false) /\ sub_month_ranges c /\
+            c_weeks c = 0 /\ c_rdays c = 0 /\ total_seconds c = (p_wall b - p_wall a) / 1000000.
+Proof.
+  intros P He. pose proof P as (Wa & Wb & Da & Db & Htz).
+  pose proof Wa as (_ & _ & Oa). pose proof Wb as (_ & _ & Ob).
+  pose proof (py_pd_spec a b P ltac:(lia)) as S.
+  destruct (py_precise_diff a b) as [r|] eqn:E; [|contradiction]. destruct S as [S _].
+  pose proof (subday_spec a b r Wa Wb He S) as (HY & HMo & HD & HT).
+  unfold pd_spec in S. cbv zeta in S. destruct S as (Rh & Rm & Rs & Ru & _).
+  assert (G : p_gtb a b = false).
+  { unfold p_gtb. rewrite (key_dt a b a Oa Ob Da (or_introl eq_refl)), (key_dt a b b Oa Ob Db (or_intror eq_refl)). lia. }
+  unfold diff_comps. rewrite G. cbv zeta. cbv iota. rewrite (refolded_zero a Oa), (refolded_zero b Ob).
+  unfold pd_backend. rewrite E. cbn [bind].
+  assert (El : iv_elapsed a b = p_wall b - p_wall a).
+  { unfold iv_elapsed, p_instant. rewrite Da, Oa, Ob. destruct (p_aware a); lia. }
+  rewrite El. eexists. split; [reflexivity|].
+  unfold sub_month_ranges, total_seconds, iv_components. cbn [c_years c_months c_weeks c_rdays c_hours c_minutes c_rsecs iv_years iv_months iv_weeks iv_remaining_days iv_hours iv_minutes iv_remaining_seconds].
+  rewrite HY, HMo, HD. unfold sgn. unfold us_per_day in *.
+  set (E0 := p_wall b - p_wall a) in *.
+  assert (Hs : Z.abs E0 / 1000000 = (pd_hours r * 60 + pd_minutes r) * 60 + pd_seconds r) by lia.
+  rewrite Hs. change (Z.abs 0) with 0. change (0 / 7) with 0. change (0 mod 7) with 0.
+  assert (Hq : E0 / 1000000 = (pd_hours r * 60 + pd_minutes r) * 60 + pd_seconds r) by lia.
+  rewrite Hq.
+  destruct (E0 <? 0) eqn:B0; [lia|].
+  set (T := (pd_hours r * 60 + pd_minutes r) * 60 + pd_seconds r) in *.
+  assert (RT : 0 <= T < 86400) by (unfold T; lia).
+  rewrite (Z.mod_small T 86400 RT), (Z.div_small T 86400 RT), !Z.mul_1_r.
+  destruct (T <? 0) eqn:B1; [lia|]. change (0 <? 0) with false. cbv iota.
+  rewrite (Z.abs_eq T) by lia.
+  assert (Hm60 : T mod 60 = pd_seconds r) by (unfold T; lia).
+  rewrite Hm60. repeat split; try lia.
+Qed.
+
+Lemma within_one_unit_true_elapsed_lemma a b : dt_pair a b -> 0 < p_wall b - p_wall a < us_per_day ->
+  exists c, diff_comps false a b 0 0 = Ok (c, false) /\
+    match gen_pick c with
+    | Some (u, n) => Z.abs (n * unit_seconds u - (p_wall b - p_wall a) / 1000000) < unit_seconds u
+    | None => (p_wall b - p_wall a) / 1000000 <= 10
+    end.
+Proof.
+  intros P He. destruct (subday_utc a b P He) as (c & Hc & R & _ & _ & HT).
+  exists c. split; [exact Hc|]. rewrite <- HT. apply within_one_unit_fixed_lemma. exact R.
+Qed.
+
+Lemma diff_comps_rs_eq_py a b : dt_pair a b -> 1 <= p_year a -> p_wall a < p_wall b -> diff_comps true a b 0 0 = diff_comps false a b 0 0.
+Proof.
+  intros P Hy Hlt. pose proof P as (Wa & Wb & Da & Db & _). pose proof Wa as (_ & _ & Oa). pose proof Wb as (_ & _ & Ob).
+  assert (G : p_gtb a b = false).
+  { unfold p_gtb. rewrite (key_dt a b a Oa Ob Da (or_introl eq_refl)), (key_dt a b b Oa Ob Db (or_intror eq_refl)). lia. }
+  unfold diff_comps. rewrite G. cbv zeta. cbv iota. rewrite (refolded_zero a Oa), (refolded_zero b Ob).
+  unfold pd_backend. rewrite (rs_eq_py a b P Hy Hlt). reflexivity.
+Qed.
+
+Lemma within_one_unit_true_elapsed_rs_lemma a b : dt_pair a b -> 1 <= p_year a -> 0 < p_wall b - p_wall a < us_per_day ->
+  exists c, diff_comps true a b 0 0 = Ok (c, false) /\
+    match gen_pick c with
+    | Some (u, n) => Z.abs (n * unit_seconds u - (p_wall b - p_wall a) / 1000000) < unit_seconds u
+    | None => (p_wall b - p_wall a) / 1000000 <= 10
+    end.
+Proof.
+  intros P Hy He. rewrite (diff_comps_rs_eq_py a b P Hy ltac:(lia)). apply within_one_unit_true_elapsed_lemma; assumption.
+Qed.
+
+(* the hypotheses are satisfiable, across a month end: 2021-01-31T23:00Z -> 2021-02-01T01:00Z is "2 hours" *)
+Example subday_hypotheses_satisfiable :
+  let a := mkpdt 2021 1 31 23 0 0 0 0 true 2 2 true in let b := mkpdt 2021 2 1 1 0 0 0 0 true 2 2 true in
+  dt_pair a b /\ 1 <= p_year a /\ 0 < p_wall b - p_wall a < us_per_day /\
+  diff_comps false a b 0 0 = Ok (mkcomp 0 0 0 0 2 0 0, false) /\ diff_comps true a b 0 0 = Ok (mkcomp 0 0 0 0 2 0 0, false).
+Proof.
+  cbv zeta. repeat split; try reflexivity; try (vm_compute; congruence); try (vm_compute; reflexivity).
+Qed.
